@@ -24,6 +24,8 @@ from ..harness import SymVars, ConcVars, close
 from ..report import guarded, run_parallel
 
 A = tankkit.AREA
+ADJACENT = ('P2', 'P4')     # links at the tank: closure by the tank's level limits (exception (b)) applies to them
+LIMIT_TOL = 1e-3            # "at a level limit": within 1 mm of it (the simulator's own band is Htol = 0.15 mm)
 
 
 # ------------------------------------------------------------------------------------------------
@@ -124,6 +126,13 @@ SYS_QUICK += [
     dict(name='volcurve-level', concrete_tank=True, vol_curve=True, tank_elev=7.0, init=3.0, H=3600, dur=7200, qset=[0.03], tank_link='pipe_in',
          controls=[dict(rel='gt', value=0, attr='level')]),
 ]
+SYS_QUICK += [
+    # exception (b) of the statement and its end: the target P2 is the tank's own inlet.  The tank fills to its maximum level (P2 is shut by
+    # the limit), drains through the CV pipe P4 (which carries 0.03 all the time; the inlet carries 0.06), and from then on the control "P2 OPEN IF level BELOW thr" holds with the tank away from
+    # the limit: P2 has to be reported open again.  P4 (a check-valve pipe leaving the tank) is listed before P2 at the tank.
+    dict(name='limit-release', concrete_tank=True, init=11.5, second_link='first', p3_closed=True, H=1800, dur=3600, qset=[0.06], oset=[0.03],
+         tank_link='pipe_in', no_over=True, controls=[dict(rel='lt', value=1, attr='level', target='P2')]),
+]
 SYS_THOROUGH = SYS_QUICK + [
     dict(name='hysteresis-1step', concrete_tank=True, H=3600, dur=3600, qset=[0.03], tank_link='pipe_in',
          controls=[dict(rel='lt', value=1, attr='level'), dict(rel='gt', value=0, attr='level')], p3_closed=True),
@@ -207,12 +216,16 @@ def check_system(rep, cfg):
                         upb = cb['rel'] in ('gt', 'ge')
                         vb, tb = value(cb, k), real(cb['thr'])
                         excuses.append(vb >= tb if upb else vb <= tb)
+                    if tg in ADJACENT and int(ca['value']) == 1:
+                        # exception (b): the adjacent tank AT a level limit may hold the link closed
+                        lvl = real(pr['T'][k])
+                        excuses.append(z3.Or(lvl >= real(x['max']) - rv(LIMIT_TOL), lvl <= real(x['min']) + rv(LIMIT_TOL)))
                     if ca.get('what', 'status') == 'setting':
                         ok_now = real(sett[tg][k]) == real(ca['value'])
                     else:
                         ok_now = z3.BoolVal(int(stt[tg][k]) == int(ca['value']))
                     cons_claims.append(z3.Implies(holds, z3.Or(ok_now, *excuses)))
-                    if k > 0 and ca.get('source', 'T') == 'T':
+                    if k > 0 and ca.get('source', 'T') == 'T' and not cfg.get('no_over'):
                         vprev = value(ca, k - 1)
                         # the control acted in this step (P3 changed to the commanded status): it must have done so at the crossing
                         newly = z3.And(holds, z3.Not(vprev >= ta if up else vprev <= ta), z3.BoolVal(ca.get('what', 'status') == 'status' and int(stt[tg][k]) == int(ca['value']) and int(stt[tg][k - 1]) != int(ca['value'])))
@@ -252,8 +265,12 @@ def replay_system(i):
         res = _realise_keep_p3(wn, cfg, qs)
     if isinstance(res, str):
         return res
+    return _judge_run(res, x, cfg)
+
+
+def _judge_run(res, x, cfg):
+    """the statement, read off a real run"""
     times = [int(t) for t in res.node['head'].index]
-    st = res.link['status']['P3']
     dm = res.node['demand']['T']
 
     def value(c, t):
@@ -266,16 +283,28 @@ def replay_system(i):
             d = value(ca, t) - float(ca['thr'])
             if not (d > 1e-9 if up else d < -1e-9):
                 continue
+            tg = ca.get('target', 'P3')
+            st = res.link['status'][tg]
             excused = False
             for b, cb in enumerate(x['controls']):
-                if b == a or cb['value'] == ca['value'] or cb.get('priority', 3) < ca.get('priority', 3):
+                if b == a or cb.get('target', 'P3') != tg or (cb['value'] == ca['value'] and cb.get('what', 'status') == ca.get('what', 'status')) or cb.get('priority', 3) < ca.get('priority', 3):
                     continue
                 db = value(cb, t) - float(cb['thr'])
                 if (db >= -1e-9) if cb['rel'] in ('gt', 'ge') else (db <= 1e-9):
                     excused = True
+            if tg in ADJACENT and int(ca['value']) == 1:
+                lvl = res.node['pressure']['T'][t]
+                if lvl >= float(x['max']) - LIMIT_TOL or lvl <= float(x['min']) + LIMIT_TOL:
+                    excused = True
+            if ca.get('what', 'status') == 'setting':
+                got = res.link['setting'][tg][t]
+                if abs(got - float(ca['value'])) > 1e-9 and not excused:
+                    return 'at t=%d control %d (%s %s %r, value %r) holds but the setting of %s is %r, commanded %r' % (t, a, ca['attr'], ca['rel'], float(ca['thr']), value(ca, t), tg, got, ca['value'])
+                continue
             if int(st[t]) != int(ca['value']) and not excused:
-                return 'at t=%d control %d (%s %s %r, value %r) holds but P3 status is %d, commanded %d' % (t, a, ca['attr'], ca['rel'], float(ca['thr']), value(ca, t), int(st[t]), ca['value'])
-            if k > 0 and ca.get('source', 'T') == 'T':
+                return 'at t=%d control %d (%s %s %r, value %r, tank level %r) holds but the status of %s is %d, commanded %d' % (
+                    t, a, ca['attr'], ca['rel'], float(ca['thr']), value(ca, t), res.node['pressure']['T'][t], tg, int(st[t]), ca['value'])
+            if k > 0 and ca.get('source', 'T') == 'T' and not cfg.get('no_over'):
                 dp = value(ca, times[k - 1]) - float(ca['thr'])
                 was = dp >= 0 if up else dp <= 0
                 if not was and int(st[t]) == int(ca['value']) and int(st[times[k - 1]]) != int(ca['value']) and abs(d) > 2 * abs(dm[times[k - 1]]) / A + 1e-6:
@@ -295,7 +324,12 @@ def _realise_keep_p3(wn, cfg, qs):
     j1.demand_timeseries_list.clear()
     j1.add_demand(1.0, 'real')
     wn.get_node('J2').demand_timeseries_list.clear()
-    wn.get_node('J2').add_demand(0.0, None)
+    if cfg.get('oset'):
+        # the tank drains through P4 into J2's demand all the time (P3 is shut: J1's injection q has to go into the tank)
+        o = max(cfg['oset'])
+        wn.get_node('J2').add_demand(o, None)
+    else:
+        wn.get_node('J2').add_demand(0.0, None)
     try:
         return wntr.sim.WNTRSimulator(wn).run_sim()
     except Exception as ex:
